@@ -672,12 +672,26 @@ func firstLines(s string, n int) string {
 }
 
 // crashInRepo returns the first line of a panic / fatal error if a goroutine stack of the dump has a frame in /repo.
+// repoDir is the directory the harness module's go.mod maps furiko to (/repo, unless a development
+// copy of /verif points at a scratch worktree).
+func repoDir() string {
+	b, err := os.ReadFile(filepath.Join(Root, "go.mod"))
+	if err == nil {
+		for _, l := range strings.Split(string(b), "\n") {
+			if i := strings.Index(l, "github.com/furiko-io/furiko =>"); i >= 0 {
+				return strings.TrimSpace(l[i+len("github.com/furiko-io/furiko =>"):])
+			}
+		}
+	}
+	return "/repo"
+}
+
 func crashInRepo(log string) string {
 	i := strings.Index(log, "fatal error:")
 	if j := strings.Index(log, "panic:"); j >= 0 && (i < 0 || j < i) {
 		i = j
 	}
-	if i < 0 || !strings.Contains(log[i:], "/repo/pkg/") {
+	if i < 0 || !strings.Contains(log[i:], repoDir()+"/pkg/") {
 		return ""
 	}
 	line := log[i:]
